@@ -35,6 +35,13 @@ def main():
             t2 = open(ct).read()
             if "VIOLATION" in t2:
                 caught, tier, txt = True, "thorough only", t2
+        other = ""
+        co = os.path.join(d, "check_other.txt")     # first line: id of ANOTHER property's check that was run on this change, then its VIOLATION lines
+        if not caught and os.path.exists(co):
+            t3 = open(co).read()
+            if "VIOLATION" in t3:
+                other = t3.splitlines()[0].strip()
+                caught, tier, txt = True, "quick, by the %s check" % other, t3
         note = ""
         if os.path.exists(os.path.join(d, "strengthened.txt")):
             note = " — " + open(os.path.join(d, "strengthened.txt")).read().strip()
